@@ -100,6 +100,16 @@ func runProp(id, tier, repo, verif, only string) (code int) {
 	}()
 	r := &Run{Prop: id, Tier: tier, Repo: repo, Verif: verif, Only: only, start: time.Now(),
 		Explain: pd.explain, Assume: pd.assume}
-	pd.run(r)
+	func() {
+		defer func() {
+			if e := recover(); e != nil {
+				if _, ok := e.(abortErr); ok {
+					return
+				}
+				panic(e)
+			}
+		}()
+		pd.run(r)
+	}()
 	return r.finish()
 }
